@@ -49,7 +49,7 @@ func runC19(c *core.Ctx) {
 	c.Rule("R2", "uniform key/value transforms (versioned keys with an injective prefix map, fresh snappy encodings, decoded-only results)", 14)
 	c.Rule("R3", "LRU layer: lock, expiry check, write-through order, Add-on-success, default TTL back-fill, delete order", 10)
 	c.Rule("R5", "wrappers never short-circuit a mutation: the inner same-named call is on every path", 18)
-	c.Rule("R4", "memcached placement: natural-sorted resolved list, jump hash under lock, pure hash", 4)
+	c.Rule("R4", "memcached placement: natural-sorted resolved list, jump hash under lock, pure single-path hash", 4)
 	pkg := c.Prog.Pkg("cache")
 	if pkg == nil {
 		c.Miss("R1", "pkg=cache", "not loaded")
@@ -617,5 +617,32 @@ func c19Selector(c *core.Ctx, pkg *packages.Package) {
 			return true
 		})
 		c.Check(len(bad) == 0, "R4", "jumpHash:pure", fn.Pos(), fmt.Sprintf("jumpHash reads only its arguments (no clock, randomness, map iteration or package state): %v", bad), 1)
+		// one algorithm for every bucket count: a key keeps its bucket when buckets are appended only because the
+		// same jump sequence is cut at a later point, so no bucket count may take another route to a result —
+		// one return, behind the one loop, returning the loop's last bucket
+		rets, loops := 0, 0
+		var retOK bool
+		fn.InspectDeep(func(n ast.Node) bool {
+			switch x := n.(type) {
+			case *ast.ReturnStmt:
+				rets++
+				if len(x.Results) == 1 {
+					v := fn.Canon(x.Results[0])
+					retOK = strings.HasPrefix(v, "int32(") && !strings.Contains(v, "p0") && !strings.Contains(v, "p1")
+				}
+			case *ast.ForStmt, *ast.RangeStmt:
+				loops++
+			}
+			return true
+		})
+		branches := 0
+		fn.InspectDeep(func(n ast.Node) bool {
+			switch n.(type) {
+			case *ast.IfStmt, *ast.SwitchStmt, *ast.TypeSwitchStmt, *ast.SelectStmt:
+				branches++
+			}
+			return true
+		})
+		c.Check(rets == 1 && loops == 1 && branches == 0 && retOK, "R4", "jumpHash:one-path", fn.Pos(), fmt.Sprintf("%d return, %d loop, %d branches outside the loop condition: every bucket count runs the same jump sequence (append-stability needs it)", rets, loops, branches), 1)
 	}
 }
